@@ -38,6 +38,8 @@ def paths(fn):
             m = ev(e.value, env)
             i, j = ev(e.slice.elts[0], env), ev(e.slice.elts[1], env)
             if isinstance(m, list) and isinstance(i, int) and isinstance(j, int):
+                if not (0 <= i < len(m) and 0 <= j < len(m[i])):
+                    raise _Ret(("out-of-range", "%s reads outside the 2 x 2 table of index pairs" % unparse(e)))
                 return m[i][j]
         raise AnalysisError("%s: expression not modelled: %s" % (FN, unparse(e)[:60]))
 
@@ -60,6 +62,8 @@ def paths(fn):
                 elif isinstance(t, ast.Subscript) and isinstance(t.slice, ast.Tuple):
                     m = ev(t.value, env)
                     i, j = ev(t.slice.elts[0], env), ev(t.slice.elts[1], env)
+                    if not (isinstance(m, list) and isinstance(i, int) and isinstance(j, int) and 0 <= i < len(m) and 0 <= j < len(m[i])):
+                        raise _Ret(("out-of-range", "%s writes outside the 2 x 2 table of index pairs" % unparse(t)))
                     m[i][j] = ev(st.value, env)
                 else:
                     raise AnalysisError("%s: store not modelled: %s" % (FN, unparse(st)[:60]))
